@@ -129,3 +129,36 @@ def writtenBytes (ops : List (Op Bytes)) : Bytes :=
 def StrongTag (e : Bytes) : Prop := hasPrefix vWeakPrefix e = false ∧ ∃ b, e = b ++ [34]
 
 end CaddyModel.C15
+
+/-! ### Accept-Encoding as RFC 9110 writes it (§12.5.3, §12.4.2, §5.6.1) -/
+namespace CaddyModel.C15
+
+/-- `tchar` of RFC 9110 §5.6.2 -/
+def tchar (b : UInt8) : Bool :=
+  (48 ≤ b && b ≤ 57) || (65 ≤ b && b ≤ 90) || (97 ≤ b && b ≤ 122) ||
+  b == 33 || b == 35 || b == 36 || b == 37 || b == 38 || b == 39 || b == 42 || b == 43 || b == 45 || b == 46 ||
+  b == 94 || b == 95 || b == 96 || b == 124 || b == 126
+
+/-- a coding name (or `*`): a non-empty token -/
+def IsToken (t : Bytes) : Prop := t ≠ [] ∧ ∀ b ∈ t, tchar b = true
+
+/-- optional white space: `*( SP / HTAB )` -/
+def IsOWS (s : Bytes) : Prop := ∀ b ∈ s, b = 32 ∨ b = 9
+
+/-- every spelling of the weight zero: `"0" [ "." 0*3DIGIT ]` with the digits all `0` -/
+def zeroSpellings : List Bytes := [[48], [48, 46], [48, 46, 48], [48, 46, 48, 48], [48, 46, 48, 48, 48]]
+
+/-- `codings OWS ";" OWS ("q" / "Q") "=" qvalue`, with white space around it as a list element may have -/
+def weightedElem (lead name ows1 ows2 : Bytes) (qc : UInt8) (qv trail : Bytes) : Bytes :=
+  lead ++ name ++ ows1 ++ [59] ++ ows2 ++ [qc, 61] ++ qv ++ trail
+
+/-- a list element without a weight -/
+def plainElem (lead name trail : Bytes) : Bytes := lead ++ name ++ trail
+
+/-- `#element`: the elements joined by commas -/
+def joinElems : List Bytes → Bytes
+  | [] => []
+  | [e] => e
+  | e :: es => e ++ 44 :: joinElems es
+
+end CaddyModel.C15
